@@ -8,6 +8,7 @@
 4. stores everything under /verif/seeded/<id>/ (patch.diff, demonstration, meta.json).
 """
 import glob
+import hashlib
 import json
 import os
 import re
@@ -123,6 +124,8 @@ def main():
     json.dump(res, open(os.path.join(dst, "meta.json"), "w"), indent=1)
     print(json.dumps({k: res[k] for k in ("seed_id", "demonstration", "check")}, indent=1)[:2500])
     sh("git -C /repo worktree remove --force %s" % WT)
+    # the per-worktree binaries tools/vlib.py built for this tree
+    shutil.rmtree(os.path.join(VERIF, ".build", "bin-" + hashlib.sha1(WT.encode()).hexdigest()[:8]), ignore_errors=True)
 
 
 if __name__ == "__main__":
